@@ -15,15 +15,18 @@ import (
 var SolverSeed int
 
 type Solver struct {
-	cmd     *exec.Cmd
-	in      io.WriteCloser
-	out     *bufio.Reader
-	log     io.Writer // optional transcript
-	Queries int
-	Errors  int
-	Time    time.Duration
-	bin     string
-	args    []string
+	cmd         *exec.Cmd
+	in          io.WriteCloser
+	out         *bufio.Reader
+	log         io.Writer // optional transcript
+	Slowest     time.Duration
+	SlowQueries int
+	lastAssert  string
+	Queries     int
+	Errors      int
+	Time        time.Duration
+	bin         string
+	args        []string
 }
 
 func NewSolver(bin string, timeoutMs int, log io.Writer) (*Solver, error) {
@@ -78,6 +81,9 @@ func (s *Solver) Close() {
 
 // Send writes a command that produces no output (assert, declare, define, push, pop).
 func (s *Solver) Send(c string) {
+	if strings.HasPrefix(c, "(assert") {
+		s.lastAssert = c
+	}
 	if s.log != nil {
 		fmt.Fprintln(s.log, c)
 	}
@@ -130,7 +136,17 @@ func (s *Solver) CheckSat(assumptions ...string) string {
 		s.Send("(check-sat-assuming (" + strings.Join(assumptions, " ") + "))")
 	}
 	r, err := s.readSexp()
-	s.Time += time.Since(t0)
+	d := time.Since(t0)
+	s.Time += d
+	if d > s.Slowest {
+		s.Slowest = d
+	}
+	if d > 500*time.Millisecond {
+		s.SlowQueries++
+		if debugOn {
+			debugf("slow query %.2fs -> %s; last assert: %s", d.Seconds(), r, truncate(s.lastAssert, 600))
+		}
+	}
 	if s.log != nil {
 		fmt.Fprintln(s.log, "; ->", r)
 	}
